@@ -76,4 +76,46 @@ def decodeCluster (c : PCluster) : String × DCluster :=
 
 def DCluster.toResolve (d : DCluster) : Cluster := ⟨d.endpointName, d.inline⟩
 
+/-- a resource slot: wrong type URL, undecodable bytes, or a message -/
+inductive Slot (α : Type)
+  | badUrl
+  | badBytes
+  | ok (a : α)
+  deriving Repr, Inhabited
+
+/-- result of a multi-resource decoder: entries (a later resource of the same name replaces an earlier one) and errors -/
+structure Decoded (α : Type) where
+  entries : List (String × α)
+  errors : Nat
+  deriving Repr, Inhabited
+
+def addEntry {α} (d : Decoded α) (k : String) (v : α) : Decoded α :=
+  if d.entries.any (fun e => e.1 = k) then d else { d with entries := (k, v) :: d.entries }
+
+/-- `UnmarshalCDS` (`parseClusterLoadAssignment` never fails, so a decodable cluster is always stored) -/
+def decodeCDS : List (Slot PCluster) → Decoded DCluster
+  | [] => ⟨[], 0⟩
+  | r :: rest =>
+    let d := decodeCDS rest
+    match r with
+    | .ok c => addEntry d (decodeCluster c).1 (decodeCluster c).2
+    | _ => { d with errors := d.errors + 1 }
+
+/-- `UnmarshalEDS`: an assignment without localities is stored as the nil value -/
+def decodeEDS : List (Slot PCla) → Decoded (Option Endpoints)
+  | [] => ⟨[], 0⟩
+  | r :: rest =>
+    let d := decodeEDS rest
+    match r with
+    | .ok a => addEntry d a.name (decodeCla (some a))
+    | _ => { d with errors := d.errors + 1 }
+
+/-- `UnmarshalNDS`: only the first resource is looked at; an empty response is an error.
+The table is a Go map: host ↦ addresses in order -/
+def decodeNDS (slots : List (Slot (List (String × List String)))) : Option (List (String × List String)) :=
+  match slots with
+  | [] => none
+  | .ok t :: _ => some t
+  | _ :: _ => none
+
 end XdsVerif.DecodeCE
